@@ -421,7 +421,7 @@ def run(ctx):
                 "calls) on a real Context; one case = one construction; non-trivial = a construction that returned an already registered "
                 "expression, or a constant, or an operation over non-leaf operands (two-level key exercised), or a failing construction; "
                 "distinct by (history hash, step)")
-    broken = ctx.lean_stage(["FAVerif.Props.C07"], THEOREMS)
+    ctx.lean_stage(["FAVerif.Props.C07"], THEOREMS)
     fa = import_real()
     enc = W.Encoder()
 
@@ -448,6 +448,7 @@ def run(ctx):
     # ---- real execution (+ oracle) ------------------------------------------------------------
     all_lines, all_expect, owners = [], [], []
     results = []
+    crash_item = None
     # every 12th generated history without compound calls is executed on a Context(enable_alt=True): search only
     for hi, (origin, h) in enumerate(histories):
         use_alt = origin.startswith("gen:") and not origin.endswith("compound") and hi % 12 == 5
@@ -457,7 +458,7 @@ def run(ctx):
             res = W.execute(fa, h, enc, alt=use_alt)
         except Exception as e:  # noqa  -- the harness itself must not die on a broken repo
             import traceback
-            item = ctx.broken("correspondence:HashCons(harness exception)", traceback.format_exc()[-1500:])
+            item = crash_item = crash_item or ctx.broken("correspondence:HashCons(harness exception)", traceback.format_exc()[-1500:])
             ctx.violation("construction-history-crashes:" + type(e).__name__,
                           f"executing a well-formed history on the real Context raised {type(e).__name__}: {e}",
                           dict(history=h, alt=use_alt), broken_item=item)
@@ -541,7 +542,6 @@ def run(ctx):
     ctx.notes["search_findings_total"] = nfind
     ctx.obligation("correspondence:HashCons(model == real Context on every construction: outcome, intkey, key)", not mismatch_hist, kind="correspondence")
 
-    first_items = list({id(v): v for v in corr_items.values()}.values()) + broken
     ctx.notes["search_signatures"] = sorted(reported)
     for sig, (ri, f) in list(reported.items())[:10]:
         origin, h, res = results[ri]
@@ -552,8 +552,9 @@ def run(ctx):
         if verdict != "known":
             # a NEW failing input on the real code accounts for the broken correspondence/obligation items of this
             # run (listed findings never do: they exist on the unchanged tree)
-            for it in first_items:
-                it["has_failing_input"] = True
+            for it in ctx.broken_items:
+                if not it["name"].startswith("correspondence:PyVal") and not it["name"].startswith("trusted:"):
+                    it["has_failing_input"] = True
 
 
 def replay(ctx, obj):
